@@ -166,8 +166,27 @@ pub fn targets_for(n: usize) -> Vec<IpAddr> {
     (0..n).map(|i| IpAddr::V4(std::net::Ipv4Addr::new(10, 200, 0, i as u8 + 1))).collect()
 }
 
+/// The application and its tracers, without a terminal (the real event loop brings its own).
+pub struct Parts {
+    pub app: TuiApp,
+    pub tracers: Vec<Tracer>,
+    pub mmdb_path: Option<std::path::PathBuf>,
+}
+
 impl Session {
     pub fn new(setup: &TuiSetup, secrets: &[Secrets], unique: u64) -> Result<Self, String> {
+        let Parts { app, tracers, mmdb_path } = Self::parts(setup, secrets, unique)?;
+        let term = Terminal::new(TestBackend::new(120, 40)).map_err(|e| e.to_string())?;
+        Ok(Self {
+            app,
+            term,
+            tracers,
+            size: (120, 40),
+            mmdb_path,
+        })
+    }
+
+    pub fn parts(setup: &TuiSetup, secrets: &[Secrets], unique: u64) -> Result<Parts, String> {
         let _ = trippy_tui::verif::set_locale(Some("en"));
         // GeoIP database with the secrets of every address
         let mmdb_path = if setup.with_geoip {
@@ -249,14 +268,7 @@ impl Session {
             .collect::<Result<_, _>>()?;
         let traces: Vec<TraceInfo> = tracers.iter().enumerate().map(|(i, t)| TraceInfo::new(t.clone(), format!("target{i}.example"))).collect();
         let app = TuiApp::new(tui_config, resolver, geoip, traces);
-        let term = Terminal::new(TestBackend::new(120, 40)).map_err(|e| e.to_string())?;
-        Ok(Self {
-            app,
-            term,
-            tracers,
-            size: (120, 40),
-            mmdb_path,
-        })
+        Ok(Parts { app, tracers, mmdb_path })
     }
 
     pub fn resize(&mut self, w: u16, h: u16) {
